@@ -13,6 +13,7 @@
 #define _GNU_SOURCE
 #include <stdio.h>
 #include <math.h>
+#include <limits.h>
 #include <stdlib.h>
 #include <string.h>
 #include <stdarg.h>
@@ -585,7 +586,11 @@ static int pff_generic(int k, cfg_opt_t *opt)
 {
 	int i;
 	for (i = 0; i < pff_n[k]; i++)
-		if (strcmp(pff_hidden[k][i], opt->name) == 0) return 1;
+		if (strcmp(pff_hidden[k][i], opt->name) == 0) {
+			/* "non-zero = leave it out" (confuse.h): the predicates answer with different non-zero values */
+			static const int verdict[4] = { 1, -1, 42, INT_MIN };
+			return verdict[k & 3];
+		}
 	return 0;
 }
 static int pff0(cfg_t *c, cfg_opt_t *o) { (void)c; return pff_generic(0, o); }
